@@ -54,6 +54,13 @@ def build(case) -> Built:
     for i in range(1, len(specs)):
         link = specs[i]['link']
         if link['kind'] == 'joint':
+            if link.get('first_mated') and specs[i - 1]['type'] == specs[i]['type'] and specs[i]['type'] in ('spur', 'helical') \
+                    and not specs[i - 1].get('module') and not specs[i].get('module'):
+                # a design variant: the same two gears were mated (ideal efficiency) before being joined rigidly
+                try:
+                    gu.add_gear_mating(master=b.elements[i - 1], slave=b.elements[i], efficiency=1)
+                except ValueError:
+                    pass
             gu.add_fixed_joint(master=b.elements[i - 1], slave=b.elements[i])
         elif link['kind'] == 'gear':
             gu.add_gear_mating(master=b.elements[i - 1], slave=b.elements[i], efficiency=link['eta'])
